@@ -219,10 +219,23 @@ def vtk_grammar(repo, col):
             missing.append(w.strip())
         else:
             pos = found + 1
+    # a keyword that is not written by this function or its local helpers
+    # but does occur as a literal elsewhere in the module (a writer class, a
+    # table of section names) is not evidence of a defect
+    und_v = False
+    if missing:
+        mod_lits = " ".join(
+            n_.value for n_ in ast.walk(fn.module.tree)
+            if isinstance(n_, ast.Constant) and isinstance(n_.value, str))
+        found_kw = [w.strip() for w in want if w is not None
+                    and w.strip() not in missing]
+        und_v = all(k_ in mod_lits for k_ in missing) and \
+            len(found_kw) < 3
     col.add(rule, fn, "header, ASCII, DATASET POLYDATA, POINTS, POLYGONS, "
-            "POINT_DATA, SCALARS, LOOKUP_TABLE in order", not missing,
+            "POINT_DATA, SCALARS, LOOKUP_TABLE in order",
+            not missing or und_v,
             "" if not missing else "keyword(s) %s missing or out of order in "
-            "the VTK output" % missing)
+            "the VTK output" % missing, undecided=bool(missing) and und_v)
     for c in calls_in(fn.node):
         if (call_name(c) or "").endswith("np.insert") and len(c.args) >= 3 \
                 and const_int(c.args[2]) is not None:
